@@ -94,6 +94,20 @@ def configs() -> list[SepConfig]:
 
         out.append(SepConfig(f"AutoSeparatedPacketSerializer(sep={sep!r})", sep, lambda limit, sep=sep: RawSep(sep, limit), ord("a"), 0xFF, decb))
 
+    class RawSepInner(RawSep):
+        """deserialize() fails the way a wrapped incremental serializer does: with an IncrementalDeserializeError of its own, whose
+        remaining_data speaks about the frame, not about the stream."""
+
+        def deserialize(self, data: bytes) -> bytes:
+            from easynetwork.exceptions import IncrementalDeserializeError
+
+            if b"\xff" in data:
+                raise IncrementalDeserializeError("undecodable byte", remaining_data=b"")
+            return data
+
+    for sep in (b"|", b"#$"):
+        out.append(SepConfig(f"AutoSeparatedPacketSerializer(sep={sep!r}, deserialize raises IncrementalDeserializeError)", sep, lambda limit, sep=sep: RawSepInner(sep, limit), ord("a"), 0xFF, decb))
+
     def decj(p: Any) -> bytes:
         return str(p).encode() if isinstance(p, int) else b"?"
 
